@@ -2169,6 +2169,7 @@ pub fn set_index(
                                 return Err(e);
                             }
                         };
+                        let old = owned[i];
                         owned[i..i + 1].copy_from_slice(v.as_bytes());
                         match String::from_utf8(owned) {
                             Ok(r) => {
@@ -2176,9 +2177,12 @@ pub fn set_index(
                                 Ok(())
                             }
                             Err(err) => {
-                                *mut_s = String::from_utf8_lossy(err.as_bytes()).into_owned();
+                                // put it back: the assignment is refused, the string keeps its value
+                                let mut bytes = err.into_bytes();
+                                bytes[i] = old;
+                                *mut_s = String::from_utf8(bytes).unwrap();
                                 Err(NErr::value_error(format!(
-                                    "assigning to string result not utf-8 (string corrupted)"
+                                    "assigning to string result not utf-8"
                                 )))
                             }
                         }
